@@ -41,15 +41,18 @@ def _fuzz_dir():
 
 
 def build():
+    """No sanitizer: with forbid(unsafe_code) in all three crates ASan can only indict dependencies (C01's thorough tier
+    has an ASan leg of its own), and on this target it costs two orders of magnitude (every execution runs in a fresh
+    thread with a large stack).  Debug assertions and overflow checks are on (profile in fuzz/Cargo.toml)."""
     env = dict(common.CARGO_ENV, CARGO_TARGET_DIR=FUZZ_TARGET)
-    return common._run_build(["cargo", "+nightly", "fuzz", "build", "--fuzz-dir", _fuzz_dir()], env, "fuzz targets")
+    return common._run_build(["cargo", "+nightly", "fuzz", "build", "-s", "none", "--fuzz-dir", _fuzz_dir()], env, "fuzz targets")
 
 
 def binary(target):
     return os.path.join(FUZZ_TARGET, "x86_64-unknown-linux-gnu", "release", target)
 
 
-def seed_corpus(dst, seed, max_len, extra=400):
+def seed_corpus(dst, seed, max_len, extra=300):
     os.makedirs(dst, exist_ok=True)
     n = 0
     for root, _, files in os.walk(os.path.join(common.REPO, "ui-tests")):
@@ -67,34 +70,68 @@ def seed_corpus(dst, seed, max_len, extra=400):
     return n + extra
 
 
+def _known_open(key_part):
+    return any(key_part in k.get("key", "") and k.get("status") == "open" for k in common.load_known_findings())
+
+
+def _fuzz_env(work):
+    env = dict(os.environ, TMPDIR=work)
+    if _known_open("sourceannot-zero-width-span"):
+        env["VERIF_FUZZ_SWALLOW_KNOWN"] = "1"
+    return env
+
+
+def _worker(args):
+    """One libFuzzer process after another on the shared corpus directory until the time is up (a crash ends a process
+    and leaves an artifact; the next one carries on)."""
+    target, corpus, art, work, seconds, seed, max_len, idx = args
+    t_end = time.time() + seconds
+    st = {"executions": 0, "processes": 0, "coverage_edges": 0, "features": 0, "deadly": 0, "log_tail": ""}
+    k = 0
+    while time.time() < t_end - 3 and k < 400:
+        left = int(t_end - time.time())
+        cmd = [binary(target), corpus, "-artifact_prefix=" + art + "/", "-max_total_time=%d" % left, "-timeout=10",
+               "-rss_limit_mb=3000", "-malloc_limit_mb=1500", "-max_len=%d" % max_len, "-close_fd_mask=2",
+               "-seed=%d" % (seed * 1000 + idx * 37 + k + 1), "-reload=1", "-print_final_stats=1", "-report_slow_units=30"]
+        try:
+            p = subprocess.run(cmd, stdout=subprocess.PIPE, stderr=subprocess.STDOUT, text=True, errors="replace",
+                               timeout=left + 120, env=_fuzz_env(work), cwd=work)
+            out = p.stdout
+        except subprocess.TimeoutExpired as e:
+            out = e.stdout.decode("utf-8", "replace") if isinstance(e.stdout, bytes) else (e.stdout or "")
+        k += 1
+        st["processes"] += 1
+        m = re.search(r"stat::number_of_executed_units: (\d+)", out)
+        if m:
+            st["executions"] += int(m.group(1))
+        else:
+            ms = re.findall(r"^#(\d+)\t", out, re.M)
+            if ms:
+                st["executions"] += int(ms[-1])
+        for m in re.finditer(r"^#\d+\t\w+ +cov: (\d+) ft: (\d+)", out, re.M):
+            st["coverage_edges"] = max(st["coverage_edges"], int(m.group(1)))
+            st["features"] = max(st["features"], int(m.group(2)))
+        if "deadly signal" in out or "ERROR: libFuzzer" in out:
+            st["deadly"] += 1
+        st["log_tail"] = "\n".join(l for l in out.splitlines() if "NEW_FUNC" not in l)[-500:]
+    return st
+
+
 def campaign(target, seconds, seed, max_len=2048, jobs=None, workdir=None):
-    """Runs one libFuzzer campaign; returns (stats dict, [artifact paths])."""
+    """Runs `jobs` libFuzzer workers on one shared corpus; returns (stats dict, [artifact paths], work dir)."""
     jobs = jobs or common.NPROC
     work = workdir or os.path.join(common.SCRATCH, "fuzz_%s_%d" % (target, os.getpid()))
     shutil.rmtree(work, ignore_errors=True)
     corpus, art = os.path.join(work, "corpus"), os.path.join(work, "art")
     os.makedirs(art)
     nseed = seed_corpus(corpus, seed, max_len)
-    cmd = [binary(target), corpus, "-artifact_prefix=" + art + "/", "-max_total_time=%d" % seconds, "-fork=%d" % jobs,
-           "-ignore_crashes=1", "-ignore_timeouts=1", "-ignore_ooms=1", "-timeout=10", "-rss_limit_mb=3000",
-           "-malloc_limit_mb=1500", "-max_len=%d" % max_len, "-close_fd_mask=2", "-seed=%d" % (seed + 1),
-           "-print_final_stats=1"]
     t0 = time.time()
-    env = dict(os.environ, ASAN_OPTIONS="detect_odr_violation=0:detect_leaks=0:abort_on_error=1", TMPDIR=work)
-    try:
-        p = subprocess.run(cmd, stdout=subprocess.PIPE, stderr=subprocess.STDOUT, text=True, errors="replace",
-                           timeout=seconds * 3 + 600, env=env, cwd=work)
-        out = p.stdout
-        rc = p.returncode
-    except subprocess.TimeoutExpired as e:
-        out = (e.stdout or b"").decode("utf-8", "replace") if isinstance(e.stdout, bytes) else (e.stdout or "")
-        rc = None
-    stats = {"target": target, "seconds": round(time.time() - t0, 1), "seed_inputs": nseed, "exit": rc, "jobs": jobs,
-             "executions": 0, "coverage_edges": 0, "features": 0, "corpus": 0, "oom": 0, "timeout": 0, "crash": 0}
-    for m in re.finditer(r"^#(\d+): cov: (\d+) ft: (\d+) corp: (\d+) exec/s:? (\d+) oom/timeout/crash: (\d+)/(\d+)/(\d+)", out, re.M):
-        stats.update(executions=int(m.group(1)), coverage_edges=int(m.group(2)), features=int(m.group(3)),
-                     corpus=int(m.group(4)), oom=int(m.group(6)), timeout=int(m.group(7)), crash=int(m.group(8)))
-    stats["log_tail"] = "\n".join(l for l in out.splitlines() if "NEW_FUNC" not in l)[-600:]
+    res = common.pmap(_worker, [(target, corpus, art, work, seconds, seed, max_len, i) for i in range(jobs)], nproc=jobs)
+    stats = {"target": target, "seconds": round(time.time() - t0, 1), "seed_inputs": nseed, "jobs": jobs,
+             "executions": sum(r["executions"] for r in res), "processes": sum(r["processes"] for r in res),
+             "coverage_edges": max(r["coverage_edges"] for r in res), "features": max(r["features"] for r in res),
+             "deadly_signals": sum(r["deadly"] for r in res), "corpus": len(os.listdir(corpus)),
+             "log_tail": res[0]["log_tail"]}
     arts = sorted(glob.glob(os.path.join(art, "*")))
     return stats, arts, work
 
@@ -103,7 +140,8 @@ def rerun(target, path, timeout=120):
     """One artifact alone through the fuzz binary; returns a classification dict."""
     with open(path, "rb") as f:
         data = f.read()
-    env = dict(os.environ, ASAN_OPTIONS="detect_odr_violation=0:detect_leaks=0:abort_on_error=1")
+    env = dict(os.environ)
+    env.pop("VERIF_FUZZ_SWALLOW_KNOWN", None)
     try:
         p = subprocess.run([binary(target), path, "-timeout=60", "-rss_limit_mb=3000", "-malloc_limit_mb=1500"],
                            stdout=subprocess.PIPE, stderr=subprocess.PIPE, timeout=timeout, env=env)
@@ -144,14 +182,14 @@ def panic_signature(d, where=None):
     return {"kind": "panic", "where": where, "msg": _NORM.sub("N", msg)[:120], "loc": loc}
 
 
-def run_leg(agg, prop, target, seconds, seed, max_len, judge):
+def run_leg(agg, prop, target, seconds, seed, max_len, judge, corpus_cb=None):
     """Builds, runs a campaign, re-runs every crash artifact and hands its classification to `judge(agg, cls_dict)`.
     `judge` records violations that belong to `prop`; everything else is counted."""
     build()
     stats, arts, work = campaign(target, seconds, seed, max_len=max_len)
     try:
         agg.evaluations += stats["executions"]
-        for k in ("executions", "coverage_edges", "features", "corpus", "oom", "timeout", "crash", "seed_inputs"):
+        for k in ("executions", "coverage_edges", "features", "corpus", "processes", "deadly_signals", "seed_inputs"):
             agg.count("fuzz_%s_%s" % (target, k), stats[k])
         if stats["executions"] == 0:
             agg.inconc("fuzz_campaign_did_not_run")
@@ -159,10 +197,17 @@ def run_leg(agg, prop, target, seconds, seed, max_len, judge):
             return stats
         # non-trivial = inputs the fuzzer kept because they reached new coverage (beyond the seed inputs)
         corpus_files = glob.glob(os.path.join(work, "corpus", "*"))
+        found = []
         for p in corpus_files:
             bn = os.path.basename(p)
             if not bn.startswith(("ui_", "gen_")):
                 agg.nontrivial.add(common.h64("fuzz", target, bn))
+                if corpus_cb is not None:
+                    with open(p, "rb") as f:
+                        found.append(f.read())
+        if corpus_cb is not None:
+            # the inputs the fuzzer kept because they reached new coverage also go through the check's own oracle
+            corpus_cb(agg, found)
         seen = set()
         for a in arts:
             bn = os.path.basename(a)
